@@ -161,7 +161,9 @@ func (vc *VC) checkFrame(fr *Frame, exit *State, con *Contract, env *Env) {
 				continue
 			}
 			v := oldEnv.eval(m.E)
-			if m.Elems {
+			if m.Spare {
+				heapT[k] = append(heapT[k], target{"(+ (sptr " + v.S + ") (slen " + v.S + "))", "(+ (sptr " + v.S + ") (scap " + v.S + "))"})
+			} else if m.Elems {
 				heapT[k] = append(heapT[k], target{"(sptr " + v.S + ")", "(+ (sptr " + v.S + ") (slen " + v.S + "))"})
 			} else {
 				heapT[k] = append(heapT[k], target{v.S, "(+ " + v.S + " 1)"})
